@@ -58,9 +58,16 @@ pub fn run(out: &mut Out, _seed: u64, _tier: &str) {
         let line = match AtomicNumber::from_string(s) {
             Ok(a) => {
                 let z = syms.iter().position(|x| x == a.to_atomic_symbol()).unwrap() + 1;
+                // "unknown symbols are refused": a string is an element symbol only if it IS one of the 118, letter for letter
+                if a.to_atomic_symbol() != s.as_str() {
+                    out.oracle_fail(&format!("the string {:?} is not an element symbol but was accepted (read as {})", s, a.to_atomic_symbol()), &format!("AtomicNumber::from_string({:?})", s));
+                }
                 describe(&a, z)
             }
-            Err(_) => "refused".to_string(),
+            Err(_) => {
+                if syms.iter().any(|x| x == s) { out.oracle_fail(&format!("the element symbol {:?} was refused", s), &format!("AtomicNumber::from_string({:?})", s)); }
+                "refused".to_string()
+            }
         };
         let cps = s.chars().map(|c| (c as u32).to_string()).collect::<Vec<_>>().join(",");
         out.case(&format!("sym {}", if cps.is_empty() { "-".to_string() } else { cps }), &line);
